@@ -99,16 +99,11 @@ def build(prop=None, log=None):
                 ext = json.loads(out.strip().splitlines()[-1])
             except Exception:
                 ext = {'error': out[-2000:]}
-        targets = ['PjVerif', 'pjdriver']
+        # a check builds what its property depends on - the module of its theorems with everything it imports - and the driver; the whole
+        # library (all properties) is built by --setup.  A module that no longer compiles therefore only concerns the checks that import it.
+        targets = ['PjVerif', 'pjdriver'] if prop is None else [f'PjVerif.Props.{prop}', 'pjdriver']
         rc, out = sh(['lake', 'build'] + targets, cwd=LEAN)
-        res = {'ok': rc == 0, 'log': out[-6000:], 'extract': ext}
-        if rc != 0 and prop is not None:
-            # the library as a whole failed: can this property's own modules and the driver still be built?
-            rc2, out2 = sh(['lake', 'build', f'PjVerif.Props.{prop}', 'pjdriver'], cwd=LEAN)
-            res['prop_ok'] = rc2 == 0
-            res['log'] += '\n--- per-property build ---\n' + out2[-4000:]
-        else:
-            res['prop_ok'] = rc == 0
+        res = {'ok': rc == 0, 'log': out[-6000:], 'extract': ext, 'prop_ok': rc == 0}
         return res
     finally:
         lk.close()
